@@ -22,52 +22,135 @@ PASS_SUFFIX = ("as core::clone::Clone>::clone", "as core::ops::Deref>::deref", "
 
 
 class Terms:
-    def __init__(self, fn, max_depth=40):
+    """Flow-sensitive when a position is given: `pos=(block, index)` with
+    index a statement index or 'term'. Without a position every definition of
+    a multiply-defined local is merged into a phi."""
+
+    def __init__(self, fn, max_depth=60):
         self.fn = fn
         self.du = mir.DefUse(fn)
+        self.cfg = mir.CFG(fn)
         self.max_depth = max_depth
         self._memo = {}
+        self._defmemo = {}
         self._active = set()
         self.names = {i: l.get("n") for i, l in enumerate(fn["locals"])}
+        # per local, per block: [(index, def)]
+        self._bdefs = {}
+        for l, ds in self.du.defs.items():
+            per = {}
+            for (bb, idx, s) in ds:
+                n = len(fn.blocks[bb]["st"]) if idx == "term" else idx
+                per.setdefault(bb, []).append((n, (bb, idx, s)))
+            for bb in per:
+                per[bb].sort(key=lambda x: x[0])
+            self._bdefs[l] = per
 
     # ------------------------------------------------------------------
-    def local(self, l, depth=0):
-        if l in self._memo:
-            return self._memo[l]
-        if self.du.is_arg(l):
-            t = ("param", l, self.names.get(l) or "")
-            self._memo[l] = t
-            return t
-        if l in self._active or depth > self.max_depth:
-            return ("loop",)
-        self._active.add(l)
-        defs = self.du.defs.get(l, [])
+    def _pos_index(self, pos):
+        bb, idx = pos
+        return len(self.fn.blocks[bb]["st"]) if idx == "term" else idx
+
+    def reaching(self, l, pos):
+        """definitions of local l that reach position pos"""
+        per = self._bdefs.get(l, {})
+        bb, _ = pos
+        n = self._pos_index(pos)
+        best = None
+        for (i, d) in per.get(bb, []):
+            if i < n:
+                best = d
+        if best is not None:
+            return [best], False
+        out, seen, undef = [], set(), False
+        stack = list(self.cfg.pred[bb])
+        if bb == 0:
+            undef = True
+        while stack:
+            p = stack.pop()
+            if p in seen:
+                continue
+            seen.add(p)
+            ds = per.get(p)
+            if ds:
+                # a call's destination is written on the normal edge only
+                out.append(ds[-1][1])
+                continue
+            if p == 0:
+                undef = True
+            stack.extend(self.cfg.pred[p])
+        return out, undef
+
+    def local(self, l, depth=0, pos=None):
+        if self.du.is_arg(l) and not self.du.defs.get(l):
+            return ("param", l, self.names.get(l) or "")
+        if pos is None:
+            return self._local_all(l, depth)
+        ds, undef = self.reaching(l, pos)
         ts = set()
         partial = {}
-        for (bb, idx, s) in defs:
+        for d in ds:
+            self._def_term(l, d, depth, ts, partial)
+        if undef and self.du.is_arg(l):
+            ts.add(("param", l, self.names.get(l) or ""))
+        if partial and not ts:
+            return ("agg", "?", "?", tuple(sorted((k, self._phi(v)) for k, v in partial.items())))
+        if not ts:
+            return ("unknown", "no-def _%d" % l)
+        return self._phi(ts)
+
+    def _def_term(self, l, d, depth, ts, partial):
+        (bb, idx, s) = d
+        key = (l, bb, idx)
+        if key in self._defmemo:
+            t = self._defmemo[key]
+            if isinstance(t, tuple) and t and t[0] == "__partial__":
+                partial.setdefault(t[1], set()).add(t[2])
+            else:
+                ts.add(t)
+            return
+        if key in self._active or depth > self.max_depth:
+            ts.add(("loop",))
+            return
+        self._active.add(key)
+        try:
+            pos = (bb, idx)
             if idx == "term":
                 if "p" in s["dest"]:
-                    ts.add(("unknown", "partial-call-dest"))
+                    t = ("unknown", "partial-call-dest")
                 else:
-                    ts.add(self.call_term(s, depth + 1))
-                continue
-            if s["s"] == "setdisc":
-                continue
-            lhs = s["lhs"]
-            if "p" in lhs:
-                # field-wise initialisation `_l.f = x`
-                ps = lhs["p"]
-                if len(ps) == 1 and isinstance(ps[0], dict) and "f" in ps[0]:
-                    partial.setdefault(ps[0].get("n", str(ps[0]["f"])), set()).add(self.rvalue(s["rv"], depth + 1))
+                    t = self.call_term(s, depth + 1, pos=pos)
+            elif s["s"] == "setdisc":
+                t = ("unknown", "setdisc")
+            else:
+                lhs = s["lhs"]
+                if "p" in lhs:
+                    ps = lhs["p"]
+                    if len(ps) == 1 and isinstance(ps[0], dict) and "f" in ps[0]:
+                        t = ("__partial__", ps[0].get("n", str(ps[0]["f"])), self.rvalue(s["rv"], depth + 1, pos=pos))
+                    else:
+                        t = ("unknown", "deep-store")
                 else:
-                    ts.add(("unknown", "deep-store"))
-                continue
-            ts.add(self.rvalue(s["rv"], depth + 1))
-        self._active.discard(l)
+                    t = self.rvalue(s["rv"], depth + 1, pos=pos)
+        finally:
+            self._active.discard(key)
+        self._defmemo[key] = t
+        if isinstance(t, tuple) and t and t[0] == "__partial__":
+            partial.setdefault(t[1], set()).add(t[2])
+        else:
+            ts.add(t)
+
+    def _local_all(self, l, depth=0):
+        if l in self._memo:
+            return self._memo[l]
+        ts = set()
+        partial = {}
+        for d in self.du.defs.get(l, []):
+            self._def_term(l, d, depth, ts, partial)
         if partial and not ts:
             t = ("agg", "?", "?", tuple(sorted((k, self._phi(v)) for k, v in partial.items())))
         elif not ts:
-            t = ("unknown", "no-def _%d" % l)
+            t = ("param", l, self.names.get(l) or "") if self.du.is_arg(l) else ("unknown", "no-def _%d" % l)
         else:
             t = self._phi(ts)
         self._memo[l] = t
@@ -80,7 +163,8 @@ class Terms:
                 flat |= set(t[1])
             else:
                 flat.add(t)
-        flat.discard(("loop",))
+        if len(flat) > 1:
+            flat.discard(("loop",))
         if not flat:
             return ("loop",)
         if len(flat) == 1:
@@ -88,15 +172,15 @@ class Terms:
         return ("phi", frozenset(flat))
 
     # ------------------------------------------------------------------
-    def place(self, p, depth=0):
-        t = self.local(p["l"], depth)
+    def place(self, p, depth=0, pos=None):
+        t = self.local(p["l"], depth, pos)
         for e in p.get("p", []):
-            t = self.project(t, e)
+            t = self.project(t, e, pos)
         return t
 
-    def project(self, t, e):
+    def project(self, t, e, pos=None):
         if t[0] == "phi":
-            return self._phi({self.project(x, e) for x in t[1]})
+            return self._phi({self.project(x, e, pos) for x in t[1]})
         if e == "*":
             return t
         if isinstance(e, str):
@@ -115,12 +199,12 @@ class Terms:
                 return t
             return ("variant", t, e["d"])
         if "i" in e:
-            return ("index", t, self.local(e["i"]))
+            return ("index", t, self.local(e["i"], 0, pos))
         if "ci" in e:
             return ("index", t, ("const", e["ci"]))
         return ("unknown", "proj")
 
-    def operand(self, op, depth=0):
+    def operand(self, op, depth=0, pos=None):
         o = op.get("o")
         if o == "c":
             if "fn_path" in op:
@@ -133,29 +217,29 @@ class Terms:
                 return ("const", op["s"])
             return ("const", op.get("sym", "?"))
         if o in ("cp", "mv"):
-            return self.place(op, depth)
+            return self.place(op, depth, pos)
         return ("unknown", "operand")
 
-    def rvalue(self, rv, depth=0):
+    def rvalue(self, rv, depth=0, pos=None):
         k = rv["k"]
         if k == "use":
-            return self.operand(rv["a"], depth)
+            return self.operand(rv["a"], depth, pos)
         if k in ("ref", "rawptr"):
-            return self.place(rv["place"], depth)
+            return self.place(rv["place"], depth, pos)
         if k == "cast":
-            a = self.operand(rv["a"], depth)
+            a = self.operand(rv["a"], depth, pos)
             if rv["kind"].startswith("PointerCoercion") or rv["kind"] in ("Transmute", "Subtype"):
                 return a
             return ("cast", a, rv["ty"])
         if k == "bin":
-            return ("bin", rv["op"], self.operand(rv["a"], depth), self.operand(rv["b"], depth))
+            return ("bin", rv["op"], self.operand(rv["a"], depth, pos), self.operand(rv["b"], depth, pos))
         if k == "un":
-            return ("un", rv["op"], self.operand(rv["a"], depth))
+            return ("un", rv["op"], self.operand(rv["a"], depth, pos))
         if k == "disc":
-            return ("disc", self.place(rv["place"], depth))
+            return ("disc", self.place(rv["place"], depth, pos))
         if k == "agg":
             kind = rv.get("agg")
-            ops = [self.operand(o, depth) for o in rv["ops"]]
+            ops = [self.operand(o, depth, pos) for o in rv["ops"]]
             if kind == "adt":
                 return ("agg", rv["adt"], rv["variant"], tuple(zip(rv["fields"], ops)))
             if kind == "tuple":
@@ -164,22 +248,33 @@ class Terms:
                 return ("closure", rv["closure"], tuple(ops))
             return ("agg", kind, kind, tuple((str(i), o) for i, o in enumerate(ops)))
         if k == "repeat":
-            return ("repeat", self.operand(rv["a"], depth))
+            return ("repeat", self.operand(rv["a"], depth, pos))
         return ("unknown", k)
 
-    def call_term(self, t, depth=0):
+    def call_term(self, t, depth=0, pos=None):
         path = t.get("path") or "indirect"
-        args = tuple(self.operand(a, depth) for a in t["args"])
+        args = tuple(self.operand(a, depth, pos) for a in t["args"])
         if (path in PASS_THROUGH or path.endswith(PASS_SUFFIX)) and args:
             return args[0]
         if "::FromResidual<" in path and path.endswith(">::from_residual"):
             return ("residual", args[0] if args else None)
         return ("call", path, args)
 
+    def at_call(self, bi, t, i):
+        """term of argument i of the call terminator of block bi"""
+        return self.operand(t["args"][i], 0, (bi, "term"))
+
     # ------------------------------------------------------------------
     def returns(self):
-        """term of the returned value `_0`"""
-        return self.local(0)
+        """term of the returned value `_0` (flow-sensitive, merged over return blocks)"""
+        ts = set()
+        reach = self.cfg.reachable()
+        for bi, b in enumerate(self.fn.blocks):
+            if b["term"]["t"] == "return" and bi in reach:
+                ts.add(self.local(0, 0, (bi, "term")))
+        if not ts:
+            return self._local_all(0)
+        return self._phi(ts)
 
 
 # ---------------------------------------------------------------- helpers
@@ -251,3 +346,61 @@ def show(t, depth=0, maxd=6):
     if k == "agg":
         return "%s::%s{%s}" % (t[1].split("::")[-1], t[2], ", ".join("%s: %s" % (n, show(x, depth + 1, maxd)) for n, x in t[3]))
     return "%s(%s)" % (k, ", ".join(show(x, depth + 1, maxd) if isinstance(x, tuple) else str(x) for x in t[1:]))
+
+
+# ---------------------------------------------------------------- patterns
+class V:
+    """pattern variable: binds on first use, must be equal afterwards"""
+    def __init__(self, name):
+        self.name = name
+
+
+def C(suffix, *args):
+    """pattern for a call whose resolved path ends with `suffix`"""
+    return ("callp", suffix, tuple(args))
+
+
+def TRY(p):
+    return ("try", p)
+
+
+def match(t, p, env=None):
+    """structural match of term t against pattern p; returns the binding env or None"""
+    env = {} if env is None else env
+    if isinstance(p, V):
+        if p.name in env:
+            return env if env[p.name] == t else None
+        env[p.name] = t
+        return env
+    if isinstance(p, tuple) and p and p[0] == "callp":
+        if not (isinstance(t, tuple) and t and t[0] == "call"):
+            return None
+        if not (t[1] == p[1] or t[1].endswith(p[1])):
+            return None
+        if len(t[2]) != len(p[2]):
+            return None
+        for a, b in zip(t[2], p[2]):
+            env = match(a, b, env)
+            if env is None:
+                return None
+        return env
+    if isinstance(p, tuple) and p and p[0] == "any":
+        for q in p[1:]:
+            e2 = match(t, q, dict(env))
+            if e2 is not None:
+                return e2
+        return None
+    if isinstance(p, tuple):
+        if not isinstance(t, tuple) or len(t) != len(p):
+            return None
+        for a, b in zip(t, p):
+            env = match(a, b, env)
+            if env is None:
+                return None
+        return env
+    return env if t == p else None
+
+
+def ok_payloads(t):
+    """payload terms of the `Ok(..)` alternatives of a returned term"""
+    return [dict(a[3])["0"] for a in alts(t) if a[0] == "agg" and a[2] == "Ok"]
